@@ -227,6 +227,35 @@ def rule_c13_r3(model: Model) -> RuleResult:
         else:
             r.fail(f'{ANN}.{name}', f"predicate {'' if got[1] else 'not '}{got[0]}", f"{m.relpath}:{v.lineno}",
                    f"{name} must be {'' if want[1] else 'not '}{want[0]} (e.g. the boundary value 0 is decided the wrong way)")
+    # the makers the stock conditions are built with hand the predicate they are given to Condition as it is
+    makers: t.Dict[str, FuncInfo] = {}
+    for name in STOCK:
+        v = m.assign_values.get(name)
+        if isinstance(v, ast.Call):
+            q = model.resolve(v.func, m)
+            g = model.functions.get(q or '')
+            if g is not None and q != f'{ANN}.Condition' and isinstance(g.node, ast.FunctionDef):
+                makers[g.qualname] = g
+    for q, g in sorted(makers.items()):
+        r.instances += 1
+        r.analysed.add(q)
+        gcfg = cfg_of(model, g)
+        gnz = Normalizer(model, g, gcfg, param_map=_pm(g))
+        ctors = []
+        for n in gcfg.live_nodes():
+            for root in node_exprs(n):
+                for c in walk_no_nested(root):
+                    if isinstance(c, ast.Call) and model.resolve(c.func, g.module, g) == f'{ANN}.Condition':
+                        pred = c.args[0] if c.args else next((k.value for k in c.keywords if k.arg == 'f'), None)
+                        ctors.append((c, gnz.expr(pred, n) if pred is not None else None))
+        r.sample({q: [x for _c, x in ctors]})
+        if ctors and all(x == f'${g.params[0]}' for _c, x in ctors):
+            r.ok()
+        else:
+            c0 = ctors[0][0] if ctors else g.node
+            r.fail(q, f"Condition({ctors[0][1] if ctors else '?'}, ...)", g.loc(c0),
+                   f"{g.name} does not build the condition on the predicate it is given: every stock condition made with it computes "
+                   f"something else than its documented predicate (e.g. accepts None, on which the predicate raises)")
     for fname, bounds in RANGE.items():
         f = model.func(f'{ANN}.{fname}')
         cfg = cfg_of(model, f)
